@@ -19,7 +19,11 @@ RULE = ("bounded-exhaustive small-scope exploration of source texts, each a fres
         "6 definition forms x 7 uses (cyclic ones are the point); (d) size self-reference: 9 size-deferred statements x 9 later readers of "
         "'.' x 3 definitions of the size x 3 link regimes; (e) every failing program of (b)-(d) and of (a) up to length 2 rendered under the "
         "graphical and the bare report handler; (f) brackets and .repeat nested to depth 8, 60-statement programs made of (b)-cases; (g) every "
-        "catalogue fault in linked and included files. Oracle: the outcome is 'ok' or 'fail with >= 1 error diagnostic' - never an internal "
+        "catalogue fault in linked and included files; (h) the four non-ASCII letters that case-insensitive matching treats as s, k, i substituted "
+        "into every mnemonic, directive, register and literal prefix, in 16 statement templates, and non-ASCII digits as operands; (i) every "
+        "include graph over 2 files (thorough: 3) with bodies of <= 3 (2) statements from {.include a/b(/c), .once, nop(, .end)}, judged "
+        "against a reference expansion (finite: ok with that many nops; endless: a reported error); (j) every Python codec name and alias as "
+        "--charset through the command line x 8 sources; (k) 8 astronomically large/small values x 58 consumers x 2 orders. Oracle: the outcome is 'ok' or 'fail with >= 1 error diagnostic' - never an internal "
         "exception, a hang (step budget of hook 2, wall-clock back-stop) or a failure without diagnostic. state = one source text; "
         "non-trivial = distinct text whose outcome is not 'ok'")
 ASSUMPTIONS = ["non-termination is decided by the step budget in deferred.wait() (hook 2) and a wall-clock back-stop; large finite work is not a violation "
@@ -59,6 +63,7 @@ SHAPES = [
     "1+2", "1-2", "1*2", "1/2", "1%2", "1<<2", "1>>2", "1_2", "1 _ 2", "1&2", "1^2", "1|2", "1!2", "~1", "^C1", "^c1", "+x", "-x", "~x", "-(1)", "1+", "1*", "+", "*", "1 2", "1,",
     ",1", ",", "1+-2", "1--2", "x+.", ".+x", "x*x", "x/x", "x-x", "1+2*3", "1 $ 2", "x $ y",
     # code blocks, empties, junk
+    "\u0663", "\u0668", "\u00b2", "^D\u0663", "\u0663.", "1\u0663", "0x\u0663", "\u0663$", "\u0661\u0662", "\uff13", "\u2167", "^R\u212a", "^R\u0130", "\u017fp", "r\u0661",
     "{ nop }", "{", "}", "{ }", "{ { nop } }", "", " ", ";", "; comment", ":", "::", "=", "==", "= 1", "$", "?", "\\", "`", "\x00", "\t", " ", "nop", "mov", ".word", ".end",
 ]
 BIG_SHAPES = {"40000000000", "1 << 20000.", "1 << 70.", "1 _ 100000.", "200000", "1 >> -20000.", "1 >> 1 << 70."}
@@ -74,9 +79,89 @@ N_DEFS = ["n = 2", "n = e - s", "n = t - s"]
 TREE = {"f5.bin": b"\x01\x02\x03\x04\x05", "inc2.mac": ".byte 7\n.byte 10\n.byte 11\n"}
 
 
+# (h) letters that Python's case-insensitive matching and str.upper()/lower() treat as variants of ASCII letters
+FOLD_CHARS = [("\u017f", "s"), ("\u212a", "k"), ("\u0131", "i"), ("\u0130", "i")]
+FOLD_TEMPLATES = ["%s", "%s r0", "%s r0, r1", "%s 1", "%s /x/", "%s x\nx = 2", "lbl: %s", "%s:", "%s = 5\n.word %s", ".word %s", "mov #%s, r0", "clr (%s)", "clr %s", ".rad50 /%s/",
+                  ".ascii /%s/", "%s { nop }"]
+
+
+def fold_words():
+    """every mnemonic, directive, register name, accumulator and literal prefix of the implementation"""
+    from pdpy11.builtins import builtin_commands
+    words = set(w.lower() for w in builtin_commands)
+    words |= {"r0", "r5", "sp", "pc", "ac0", "ac3", "^rsk", "^ri", "^xf", "0x1f", "^c1", "^d19", "^o17", "^b1", "^rkis", "1$", "k", "s", "i", "is", "ski"}
+    return sorted(words)
+
+
+# (i) include graphs: files a.mac and b.mac (thorough: also c.mac), every body of <= 3 (thorough: 2) statements
+def inc_bodies(tier):
+    files = ["a", "b", "c"] if tier == "thorough" else ["a", "b"]
+    alphabet = [".include \"%s.mac\"" % f for f in files] + [".once", "nop"] + ([".end"] if tier == "thorough" else [])
+    out = [()]
+    for n in range(1, (2 if tier == "thorough" else 3) + 1):
+        out += list(itertools.product(alphabet, repeat=n))
+    return out
+
+
+def include_reference(bodies):
+    """number of nops the include graph expands to, or None when the expansion never ends"""
+    counts = {}
+
+    class Infinite(Exception):
+        pass
+
+    def expand(name, depth):
+        if depth > 2 * len(bodies) + 4:
+            raise Infinite()
+        counts[name] = counts.get(name, 0) + 1
+        n = 0
+        for st in bodies[name]:
+            if st == ".once":
+                if counts[name] > 1:
+                    break
+            elif st == ".end":
+                break
+            elif st == "nop":
+                n += 1
+            else:
+                n += expand(st.split('"')[1][:-4], depth + 1)
+        return n
+    try:
+        return expand("a", 0)
+    except Infinite:
+        return None
+
+
+def charset_names():
+    import encodings.aliases
+    import pkgutil
+    import encodings
+    names = set(encodings.aliases.aliases.values()) | set(m.name for m in pkgutil.iter_modules(encodings.__path__))
+    names -= {"aliases", "mbcs", "oem"}
+    return sorted(names) + ["bk", "BK", "Bk", "KOI8-R", "utf8", "UTF-8", "latin-1", "", " ", "bk ", "x" * 300, "no-such", "bk\x00"]
+
+
+CHARSET_SOURCES = ["\t.ascii /abc/\n", "\t.ascii /\u041f\u0440\u0438\u0432\u0435\u0442/\n", "\t.byte 'a\n\t.word \"ab\n", "\t.byte '\u044f\n", "\t.asciz /a..b/\n\t.ascii /-/\n\t.ascii /xn--/\n",
+                   "\t.ascii /\u20ac\udcff/\n" if False else "\t.ascii /\u20ac/\n", "\tnop\nmake_wav \"t.wav\", \"\u0438\u043c\u044f\"\n", "\t.ascii //\n\t.rad50 /abc/\n"]
+
+# (j) astronomically large and small values reaching every consumer
+HUGE = ["h = 1 << 60000.\nhh = h * h", "h = 1 << 60000.\nhh = 0 - h * h", "hh = 1 << 100000.", "hh = 0 - <1 << 100000.>", "hh = 1 << 40.", "hh = 0 - <1 << 40.>",
+        "hh = 77777777777777777777777777777777777777777777777777", "h = 1 << 60000.\nhh = h * h * h * h / h"]
+HUGE_USES = [".word 1 << hh", ".word 1 >> hh", ".word 1 _ hh", ".word hh << 1", ".word hh >> 1", ".word hh _ 1", ".word hh _ hh", ".word hh << hh", ".word hh >> hh",
+             ".word hh", ".byte hh", ".dword hh", ".word hh / hh", ".word hh % 7", ".word 7 % hh", ".word 7 / hh", ".word hh & 7", ".word hh | 7", ".word hh ^ 7", ".word ~hh", ".word ^C hh",
+             ".word -hh", ".word hh * hh & 1", ".word hh - hh", ".word hh + 1 - hh", "mov #hh, r0", "mov hh, r0", "mov hh(r1), r0", "clr @#hh", "br hh", "sob r0, hh", "emt hh", "trap hh",
+             "mark hh", "spl hh", ".ascii <hh>", ".rad50 <hh>", ".link hh", ". = hh", ".link 1000\nnop\n. = hh", "x = hh\n.word x & 1", ".word <hh>", ".word (hh)", "mov #hh - hh + 5, r0",
+             ".blkb hh - hh + 2", ".repeat hh - hh + 2 { nop }", ".align hh", ".blkb hh", ".blkw hh", ".repeat hh { nop }", ". = . + hh", ".even\n.word hh * 0", "make_wav \"t.wav\", <hh>",
+             ".include <hh>", ".error hh", "ldf #hh, ac0", "mul #hh, r1", "clr %hh", "mov (%hh), r0"]
+# uses whose work is proportional to the value: only with the moderate values (resource guard, see ASSUMPTIONS)
+HUGE_SIZE_USES = {".blkb hh", ".blkw hh", ".repeat hh { nop }", ". = . + hh", ". = hh", ".link 1000\nnop\n. = hh"}
+
+
 def bound(tier):
-    return "token strings <= %d over 46 tokens; %d consumers x %d shapes x 2 tails; definition graphs on <= 3 names x 7 uses; 729 size self-reference programs; nesting depth 8" % (
-        4 if tier == "thorough" else 3, len(CONSUMERS), len(SHAPES))
+    return ("token strings <= %d over 46 tokens; %d consumers x %d shapes x 2 tails; definition graphs on <= 3 names x 7 uses; 729 size self-reference programs; nesting depth 8; "
+            "%d include graphs; %d charset names; %d huge-value programs; case-fold letters in %d words" % (
+                4 if tier == "thorough" else 3, len(CONSUMERS), len(SHAPES), len(inc_bodies(tier)) ** (3 if tier == "thorough" else 2), len(charset_names()),
+                len(HUGE) * len(HUGE_USES) * 2, len(fold_words())))
 
 
 def cases(tier):
@@ -104,6 +189,15 @@ def cases(tier):
         yield {"k": "long", "start": i}
     yield {"k": "faults"}
     yield {"k": "cli"}
+    for ch in range(len(FOLD_CHARS)):
+        yield {"k": "fold", "ch": ch}
+    for b in range(len(inc_bodies(tier))):
+        yield {"k": "includes", "a": b}
+    names = charset_names()
+    for i in range(0, len(names), 12):
+        yield {"k": "charsets", "lo": i, "hi": i + 12}
+    for h in range(len(HUGE)):
+        yield {"k": "huge", "h": h}
 
 
 class _Sink(io.TextIOBase):
@@ -189,13 +283,33 @@ def judge(text, r, key, render, tree=None, files=None):
     return out
 
 
+def cli_judge(r, argv, tree):
+    import shutil
+    co = driver.cli(argv, tree, keep=True)
+    try:
+        r.states += 1
+        r.trans += 1
+        key = ("cli", tuple(argv), tuple(sorted((k2, v if isinstance(v, str) else len(v)) for k2, v in tree.items())))
+        bad = co.internal_error or co.exit not in (0, 1, 2)
+        r.ran("cli-internal-error" if bad else "cli-exit-%s" % co.exit, key=key, nontrivial=True)
+        if bad:
+            m = re.search(r"(\w+(?:Error|Exception))[^\n]*\s*$", co.stderr.strip())
+            site = re.findall(r'File "[^"]*/pdpy11/([^"]+)", line \d+, in (\w+)', co.stderr)
+            sig = "cli:internal-error:%s@%s" % (m.group(1) if m else "?", ":".join(site[-1]) if site else "?")
+            r.violation(sig, "the command line ended in the internal-compiler-error path", {"k": "cli-run", "argv": argv, "tree": {k2: (v if isinstance(v, str) else v.hex()) for k2, v in tree.items()}},
+                        "exit 0 or 1 with diagnostics", co.stderr[-300:])
+    finally:
+        shutil.rmtree(co.root, ignore_errors=True)
+
+
 def check(case, r, tier):
     k = case["k"]
     if k == "text":
         judge(case["text"], r, None, True, tree=TREE if case.get("tree") else None)
         return
     if k == "files":
-        judge(None, r, None, True, tree=TREE if case.get("tree") else None, files=[tuple(f) for f in case["files"]])
+        tree = case.get("tree")
+        judge(None, r, None, True, tree=tree if isinstance(tree, dict) else (TREE if tree else None), files=[tuple(f) for f in case["files"]])
         return
     if k == "tokens":
         d, first = case["d"], case["first"]
@@ -274,7 +388,7 @@ def check(case, r, tier):
         small = "start:\tmov #start, r0\n"
         runs = []
         for out_args, directives in ((["-o", "x.bin"], ""), (["-o", "x.raw"], ""), ([], "make_bin\n"), ([], "make_wav\n"), ([], "make_turbo_wav\n"),
-                                     ([], "make_raw\nmake_bin\n"), (["--implicit-bin"], ""), (["-o", "-"], ""), (["-o", "-.bin"], ""), (["-o", "nodir/x.bin"], ""),
+                                     ([], "make_raw\nmake_bin\n"), (["--implicit-bin"], ""), (["-o", "-"], ""), (["-o-.bin"], ""), (["-o", "nodir/x.bin"], ""),
                                      ([], "make_bin \"nodir/x.bin\"\n"), ([], "make_wav \"t.wav\", \"\u03b1\"\n"), ([], "make_wav \"\u0451.wav\"\n"),
                                      ([], "make_wav \"t.wav\", \"seventeen letters!\"\n"), ([], "make_bin \"\"\n"), ([], "make_raw \".\"\n"), ([], "make_bin \"~speaker\"\n")):
             for src in (small, big):
@@ -289,23 +403,62 @@ def check(case, r, tier):
         runs.append((["m.mac", "-Wnonsense", "-Wno-nonsense"], {"m.mac": small}))
         runs.append((["-"], {}))
         for argv, tree in runs:
-            co = driver.cli(argv, tree, keep=True)
-            try:
-                r.states += 1
-                r.trans += 1
-                key = ("cli", tuple(argv), tuple(sorted((k2, len(v)) for k2, v in tree.items())))
-                bad = co.internal_error or co.exit not in (0, 1, 2)
-                r.ran("cli-internal-error" if bad else "cli-exit-%s" % co.exit, key=key, nontrivial=True)
-                if bad:
-                    m = re.search(r"(\w+(?:Error|Exception))[^\n]*\s*$", co.stderr.strip())
-                    site = re.findall(r'File "[^"]*/pdpy11/([^"]+)", line \d+, in (\w+)', co.stderr)
-                    sig = "cli:internal-error:%s@%s" % (m.group(1) if m else "?", ":".join(site[-1]) if site else "?")
-                    r.violation(sig, "the command line ended in the internal-compiler-error path", {"k": "cli-run", "argv": argv, "tree": {k2: (v if isinstance(v, str) else v.hex()) for k2, v in tree.items()}},
-                                "exit 0 or 1 with diagnostics", co.stderr[-300:])
-            finally:
-                shutil.rmtree(co.root, ignore_errors=True)
+            cli_judge(r, argv, tree)
         return
     if k == "cli-run":
+        tree = {k2: (v if not re.fullmatch(r"(?:[0-9a-f]{2})+", v) or k2.endswith(".mac") and "\n" in v else bytes.fromhex(v)) for k2, v in case["tree"].items()}
+        cli_judge(r, case["argv"], tree)
+        return
+    if k == "fold":
+        ch, asc = FOLD_CHARS[case["ch"]]
+        for w in fold_words():
+            for pos in [i for i, c in enumerate(w) if c == asc]:
+                for variant in (ch, ch.upper(), ch.lower()):
+                    w2 = w[:pos] + variant + w[pos + 1:]
+                    if w2 == w or w2.lower() == w and w2.isascii():
+                        continue
+                    for t in FOLD_TEMPLATES:
+                        text = t.replace("%s", w2) + "\n"
+                        judge(text, r, text, True)
+        return
+    if k == "includes":
+        bodies = inc_bodies(tier)
+        a = bodies[case["a"]]
+        names = ["a", "b", "c"] if tier == "thorough" else ["a", "b"]
+        for rest in itertools.product(bodies, repeat=len(names) - 1):
+            tree = {}
+            for nm, body in zip(names, (a,) + rest):
+                tree[nm + ".mac"] = "".join("\t" + st + "\n" for st in body)
+            key = tuple(sorted(tree.items()))
+            out = judge(None, r, key, False, tree=tree, files=[("a.mac", tree["a.mac"])])
+            # reference expansion: '.once' lets a file contribute only the first time, '.end' stops a file, a nop is two bytes;
+            # with '.once' as the only way out no finite expansion nests deeper than twice the number of files
+            want = include_reference(dict(zip(names, (a,) + rest)))
+            if out.status in ("ok", "fail"):
+                good = (out.status == "fail") if want is None else (out.status == "ok" and out.code == b"\xa0\x00" * want)
+                if not good:
+                    r.violation("include-graph:%s-but-%s" % (out.status, "infinite" if want is None else "finite"),
+                                "files that include one another: %s" % ("the inclusion never ends, an error is due" if want is None else "the inclusion ends, %d nops are due" % want),
+                                {"k": "files", "files": [["a.mac", tree["a.mac"]]], "tree": tree}, "fail" if want is None else "ok, %d bytes" % (2 * want), out.brief())
+        return
+    if k == "charsets":
+        for cs in charset_names()[case["lo"]:case["hi"]]:
+            for src in CHARSET_SOURCES:
+                if "\x00" in cs:
+                    continue
+                cli_judge(r, ["m.mac", "-o", "m.bin", "--charset", cs], {"m.mac": src})
+        return
+    if k == "huge":
+        defs = HUGE[case["h"]]
+        moderate = "40." in defs
+        for use in HUGE_USES:
+            if use in HUGE_SIZE_USES and not moderate:
+                continue
+            if moderate and use in (".blkb hh", ".blkw hh", ".repeat hh { nop }", ". = . + hh"):
+                continue   # 2^40 bytes or iterations: large finite work
+            for order in (0, 1):
+                text = (defs + "\n" + use if order == 0 else use + "\n" + defs) + "\n"
+                judge(text, r, text, True, tree=TREE)
         return
     if k == "faults":
         for e in faults.E:
